@@ -251,3 +251,10 @@ Print Assumptions C18_fetcher_index_invariant_partial.
 Theorem C18_source_tie : C18_source_tie_statement.
 Proof. exact C18_source_tie_proof. Qed.
 Print Assumptions C18_source_tie.
+
+(** The decision-critical functions of the anchored code have exactly the decisions the source tie knows about
+    (go2coq manifests, regenerated from /repo on every check; statement in SourceManifest.v). *)
+From Kardia Require Import C18.SourceManifest.
+Theorem C18_source_manifest : C18_source_manifest_statement.
+Proof. exact C18_source_manifest_proof. Qed.
+Print Assumptions C18_source_manifest.
